@@ -95,6 +95,16 @@ class SList(object):
         self.pycls = pycls
 
 
+class SDict(object):
+    """A dict whose keys are symbolic scalars (v3): the association list of all
+    `d[key] = value` stores in order.  `d[k]` reads the LAST pair whose key equals k
+    (later stores overwrite earlier ones), `d.keys()` are the first components (possibly
+    with repetitions, which is immaterial for min / max / membership)."""
+
+    def __init__(self, pairs):
+        self.pairs = pairs          # SList of (key, value) tuples
+
+
 class SOpt(object):
     """Symbolic optional value (memo slot of unknown fill state).  `name` is the Lean
     term of type `Option τ`; `kind` is 'S', 'B' or a struct/list kind."""
@@ -356,6 +366,7 @@ class Interp(object):
         # registered `assume_len` (recorded as an assumption) and from facts established on
         # the current path; used to drop infeasible IndexError branches
         self.len_lower = {}
+        self.int_defs = {}      # definitions of let-bound integer names (for bound proofs)
 
     # ------------------------------------------------------------ path enumeration
     def explore(self, thunk):
@@ -486,6 +497,7 @@ class Interp(object):
         if isinstance(v, Si) and not atomic(v.e):
             nm = self.fresh(base)
             self.trace.append(('let', nm, 'I', v.e))
+            self.int_defs[nm] = v.e
             return Si(('ivar', nm))
         return v
 
@@ -597,7 +609,7 @@ class Interp(object):
             raise PyRaise('AttributeError')
         if isinstance(v, (tuple, list, str, dict)) or v is None or is_num(v):
             return BoundBuiltinMethod(v, attr)
-        if isinstance(v, SList):
+        if isinstance(v, (SList, SDict)):
             return BoundBuiltinMethod(v, attr)
         raise Unsupported('attribute %s of %r' % (attr, v))
 
@@ -666,6 +678,8 @@ class Interp(object):
                 return self.module_attr('math', r[2])
             if r[1] == '__future__':
                 return None
+            if r[1] == 'collections' and r[2] == 'deque':
+                return Builtin('collections.deque')
             raise Unsupported('import %s.%s' % (r[1], r[2]))
         raise Unsupported('global %r' % (r,))
 
@@ -811,7 +825,12 @@ class Interp(object):
                 if self.denominators is not None:
                     if eb not in self.denominators:
                         self.denominators.append(eb)
-                elif self.try_depth_zero_div > 0:
+                elif eb[0] == 'lit' and getattr(self, 'model_zero_div', False) and \
+                        self.try_depth_zero_div == 0:
+                    pass        # a non-zero literal denominator never raises
+                elif self.try_depth_zero_div > 0 or getattr(self, 'model_zero_div', False):
+                    # (model_zero_div: the kernel registers that ZeroDivisionError is part
+                    # of its modelled behaviour also outside try blocks)
                     if self.decide(('eq', eb, lit(0))):
                         raise PyRaise('ZeroDivisionError')
                 return Sc(('div', ea, eb))
@@ -1106,6 +1125,12 @@ class Interp(object):
             if len(args) == 2:
                 return self.arith({'truediv': 'div'}.get(opn, opn), args[0], args[1])
             raise Unsupported(name)
+        if name == 'collections.deque':
+            if len(args) == 1 and isinstance(args[0], SList) and self.v2:
+                r_ = SList(args[0].le, args[0].elem, args[0].pycls)
+                r_.is_deque = True
+                return r_
+            raise Unsupported('deque(%r)' % (args,))
         if name == 'float':
             v = args[0]
             if isinstance(v, (Sc,)):
@@ -1178,6 +1203,18 @@ class Interp(object):
         if name == 'range':
             if all(isinstance(a, int) for a in args):
                 return range(*args)
+            if self.v2 and not kwargs and len(args) in (1, 2) and \
+                    all(isinstance(a, Si) or is_int(a) for a in args):
+                # range(n) / range(a, n) with a symbolic bound: the list of integers
+                # a, a+1, ..., n-1 (empty when n <= a); loops over it are folds
+                lo = args[0] if len(args) == 2 else 0
+                hi = args[-1]
+                if not (is_int(lo) and lo >= 0):
+                    raise Unsupported('symbolic range with a symbolic / negative start')
+                hi = self.name_value(hi, 'n') if isinstance(hi, Si) else hi
+                r = SList(('lirange', lo, __import__('emit').sexpr(to_si(hi))), 'I', None)
+                r.range_bounds = (lo, to_si(hi))
+                return r
             raise Unsupported('symbolic range')
         if name == 'enumerate':
             if self.v2 and isinstance(args[0], Obj):
@@ -1838,6 +1875,11 @@ class Frame(object):
         if isinstance(target, ast.Subscript):
             c = self.eval(target.value)
             i = self.eval(target.slice)
+            if getattr(I, 'v3', False) and isinstance(c, (SDict, SList)) or (
+                    getattr(I, 'v3', False) and isinstance(c, dict) and not c and
+                    isinstance(i, Sc)):
+                import symloops
+                return symloops.store_v3(self, target, c, i, v)
             if I.v2 and isinstance(c, list) and isinstance(i, int) and \
                     not isinstance(i, bool):
                 if isinstance(v, (Sc, Bo, Si)):
@@ -2050,6 +2092,9 @@ class Frame(object):
         if isinstance(c, SList):
             import symloops
             return symloops.sym_index(self, c, i, e)
+        if isinstance(c, SDict):
+            import symloops
+            return symloops.sdict_lookup(self, c, i)
         raise Unsupported('subscript of %r' % (c,))
 
     def eval_call(self, e):
@@ -2080,6 +2125,9 @@ class Frame(object):
         if isinstance(r, SList) and self.I.v2:
             import symloops
             return symloops.slist_method(self, r, n, args, kwargs)
+        if isinstance(r, SDict):
+            import symloops
+            return symloops.sdict_method(self, r, n, args, kwargs)
         if isinstance(r, list) and self.I.spec_starts and \
                 n in ('append', 'extend', 'insert', 'pop', 'reverse'):
             raise _NeedFork()
